@@ -17,3 +17,36 @@ package leveldb
 //@   ensures res != nil && fresh(res)
 //@   ensures [folder-omitted-when-default] res.Folder == ite(cfg.Folder != DefaultSubFolder, cfg.Folder, "")
 //@   modifies nothing
+
+// the load direction of the leveldb options: every option of the saved form is read into the option of the same name
+//@ func (ldbo *levelDBOptions) Unmarshal
+//@   property C15
+//@   requires ldbo != nil
+//@   ensures res != nil && fresh(res)
+//@   ensures [BlockCacheCapacity] res.BlockCacheCapacity == ldbo.BlockCacheCapacity
+//@   ensures [BlockCacheEvictRemoved] res.BlockCacheEvictRemoved == ldbo.BlockCacheEvictRemoved
+//@   ensures [BlockRestartInterval] res.BlockRestartInterval == ldbo.BlockRestartInterval
+//@   ensures [BlockSize] res.BlockSize == ldbo.BlockSize
+//@   ensures [CompactionExpandLimitFactor] res.CompactionExpandLimitFactor == ldbo.CompactionExpandLimitFactor
+//@   ensures [CompactionGPOverlapsFactor] res.CompactionGPOverlapsFactor == ldbo.CompactionGPOverlapsFactor
+//@   ensures [CompactionL0Trigger] res.CompactionL0Trigger == ldbo.CompactionL0Trigger
+//@   ensures [CompactionSourceLimitFactor] res.CompactionSourceLimitFactor == ldbo.CompactionSourceLimitFactor
+//@   ensures [CompactionTableSize] res.CompactionTableSize == ldbo.CompactionTableSize
+//@   ensures [CompactionTableSizeMultiplier] res.CompactionTableSizeMultiplier == ldbo.CompactionTableSizeMultiplier
+//@   ensures [CompactionTableSizeMultiplierPerLevel] res.CompactionTableSizeMultiplierPerLevel == ldbo.CompactionTableSizeMultiplierPerLevel
+//@   ensures [CompactionTotalSize] res.CompactionTotalSize == ldbo.CompactionTotalSize
+//@   ensures [CompactionTotalSizeMultiplier] res.CompactionTotalSizeMultiplier == ldbo.CompactionTotalSizeMultiplier
+//@   ensures [CompactionTotalSizeMultiplierPerLevel] res.CompactionTotalSizeMultiplierPerLevel == ldbo.CompactionTotalSizeMultiplierPerLevel
+//@   ensures [DisableBufferPool] res.DisableBufferPool == ldbo.DisableBufferPool
+//@   ensures [DisableBlockCache] res.DisableBlockCache == ldbo.DisableBlockCache
+//@   ensures [DisableCompactionBackoff] res.DisableCompactionBackoff == ldbo.DisableCompactionBackoff
+//@   ensures [DisableLargeBatchTransaction] res.DisableLargeBatchTransaction == ldbo.DisableLargeBatchTransaction
+//@   ensures [IteratorSamplingRate] res.IteratorSamplingRate == ldbo.IteratorSamplingRate
+//@   ensures [NoSync] res.NoSync == ldbo.NoSync
+//@   ensures [NoWriteMerge] res.NoWriteMerge == ldbo.NoWriteMerge
+//@   ensures [OpenFilesCacheCapacity] res.OpenFilesCacheCapacity == ldbo.OpenFilesCacheCapacity
+//@   ensures [ReadOnly] res.ReadOnly == ldbo.ReadOnly
+//@   ensures [WriteBuffer] res.WriteBuffer == ldbo.WriteBuffer
+//@   ensures [WriteL0PauseTrigger] res.WriteL0PauseTrigger == ldbo.WriteL0PauseTrigger
+//@   ensures [WriteL0SlowdownTrigger] res.WriteL0SlowdownTrigger == ldbo.WriteL0SlowdownTrigger
+//@   modifies nothing
